@@ -16,6 +16,8 @@ pub fn leaf_values(l: Leaf) -> Vec<Val> {
             Val::F64(f64::NEG_INFINITY),
             Val::F64(1.0),
             Val::F64(5e-324),
+            Val::F64(f64::from_bits(0xfff8_0000_0000_0000)),
+            Val::F64(0.1),
         ],
         Leaf::Str => vec![
             Val::Str("s".into()),
@@ -61,7 +63,7 @@ pub fn shapes_up_to(depth: usize, leaves: &[Leaf], keys: &[Leaf]) -> Vec<Shape> 
         let prev: Vec<Shape> = by_depth.last().unwrap().clone();
         let mut next = vec![];
         for s in &prev {
-            if !matches!(s, Shape::Option(_)) {
+            if !matches!(s, Shape::Option(_) | Shape::Leaf(Leaf::Unit)) {
                 next.push(Shape::opt(s.clone()));
             }
             next.push(Shape::seq(s.clone()));
@@ -154,6 +156,15 @@ pub fn one_hot(s: &Shape) -> Vec<Val> {
     }
 }
 
+/// two keys a real map cannot hold at once (equal as `DoubleKey`s / same document key)
+pub fn keys_collide(a: &Val, b: &Val) -> bool {
+    match (a, b) {
+        (Val::F64(x), Val::F64(y)) => (x.is_nan() && y.is_nan()) || x == y,
+        (Val::F32(x), Val::F32(y)) => (x.is_nan() && y.is_nan()) || x == y,
+        _ => crate::dynamic::val_eq(a, b),
+    }
+}
+
 /// the complete product (containers of size 0..2) — only called for shallow shapes
 pub fn all_values(s: &Shape) -> Vec<Val> {
     match s {
@@ -187,7 +198,7 @@ pub fn all_values(s: &Shape) -> Vec<Val> {
             }
             for (x, a) in ks.iter().enumerate() {
                 for (y, b) in ks.iter().enumerate() {
-                    if x != y {
+                    if x != y && !keys_collide(a, b) {
                         for v in &vs {
                             out.push(Val::Map(vec![(a.clone(), v.clone()), (b.clone(), vs[0].clone())]));
                         }
